@@ -40,6 +40,8 @@ class State:
 def _operand(st, o):
     if "k" in o:
         k = o["k"]
+        if "v" not in k and k.get("zst"):
+            return 0      # unit-like value
         return k.get("v", UNKNOWN)
     p = op_place(o)
     l, projs = place_parts(p)
@@ -47,6 +49,12 @@ def _operand(st, o):
         return st.env.get(l, UNKNOWN)
     if projs == ["*"] and l in st.refs:
         return st.env.get(st.refs[l], UNKNOWN)
+    if projs == ["*"]:
+        return st.env.get(l, UNKNOWN)
+    if len(projs) == 1 and isinstance(projs[0], (list, tuple)) and projs[0][0] == "f":
+        return st.env.get((l, projs[0][1]), UNKNOWN)
+    if len(projs) == 2 and isinstance(projs[0], (list, tuple)) and projs[0][0] == "dc" and isinstance(projs[1], (list, tuple)) and projs[1][0] == "f":
+        return st.env.get((l, projs[1][1]), UNKNOWN)
     return UNKNOWN
 
 
@@ -63,6 +71,9 @@ def _binop(op, a, b):
         if op == "BitXor": return (a != b) if isinstance(a, bool) and isinstance(b, bool) else a ^ b
         if op in ("Add", "AddUnchecked"): return a + b
         if op in ("Sub", "SubUnchecked"): return a - b
+        if op in ("Shl", "ShlUnchecked"): return (a << b) & 0xFFFFFFFFFFFFFFFF
+        if op in ("Shr", "ShrUnchecked"): return a >> b
+        if op in ("Mul", "MulUnchecked"): return a * b
     except Exception:
         return UNKNOWN
     return UNKNOWN
@@ -111,6 +122,9 @@ def explore(fn, oracle, init=None, max_states=4000, max_visits=2, stop_at=None):
                         l2, p2 = place_parts(sl)
                         if not p2 and l2 in st.refs:
                             st.refs[dl] = st.refs[l2]
+                        if not p2:
+                            for kk in [kk for kk in st.env if isinstance(kk, tuple) and kk[0] == l2]:
+                                st.env[(dl, kk[1])] = st.env[kk]
                 elif k == "un" and r["op"] == "Not":
                     x = _operand(st, r["o"])
                     if isinstance(x, bool):
@@ -135,9 +149,26 @@ def explore(fn, oracle, init=None, max_states=4000, max_visits=2, stop_at=None):
                         val = st.env.get(pl, UNKNOWN)
                     elif pp == ["*"] and pl in st.refs:
                         val = st.env.get(st.refs[pl], UNKNOWN)
+                    elif pp == ["*"]:
+                        # reference parameter holding an enum: the caller supplies its discriminant directly
+                        val = st.env.get(pl, UNKNOWN)
                 elif k == "agg" and r.get("ak") == "adt" and r.get("vidx") is not None:
                     # enums are abstracted to their discriminant (bits as compared by SwitchInt)
                     val = r.get("dv", r["vidx"])
+                    for oi, oo in enumerate(r.get("ops", [])):
+                        ov = _operand(st, oo)
+                        if ov is not UNKNOWN:
+                            st.env[(dl, oi)] = ov
+                        else:
+                            st.env.pop((dl, oi), None)
+                elif k == "agg" and r.get("ak") == "tuple":
+                    for oi, oo in enumerate(r.get("ops", [])):
+                        ov = _operand(st, oo)
+                        if ov is not UNKNOWN:
+                            st.env[(dl, oi)] = ov
+                        else:
+                            st.env.pop((dl, oi), None)
+                    val = UNKNOWN
                 if val is UNKNOWN:
                     st.env.pop(dl, None)
                 else:
